@@ -362,7 +362,7 @@ class MMapAsync(AsyncModel):
 
 
 SYNC_MODELS = {
-    'source': MSource, 'map': MMap, 'starmap': MStarmap, 'filter': MFilter,
+    'source': MSource, 'external': MSource, 'map': MMap, 'starmap': MStarmap, 'filter': MFilter,
     'accumulate': MAccumulate, 'slice': MSlice, 'partition': MPartition,
     'partition_unique': MPartitionUnique, 'sliding_window': MSlidingWindow,
     'unique': MUnique, 'flatten': MFlatten, 'pluck': MPluck, 'collect': MCollect,
